@@ -10,6 +10,8 @@ From Slim Require Wire EndToEnd.
 From Slim Require Scan ScanMsg.
 (* C18/C19: initLevels / Stat / String run over the message fields (MT lines of the driver) *)
 From Slim Require StatMsg.
+(* C14: GetI8/16/32/64 run over the message fields (MI lines of the driver) *)
+From Slim Require GetInt GetIntMsg.
 Extraction Language OCaml.
 Extraction "bitsx.ml"
   Byte.of_N Byte.to_N N.of_nat N.to_nat N.add N.mul
@@ -23,4 +25,5 @@ Extraction "bitsx.ml"
   Bits.set_bits_below Msg.mgetid Msg.mget Msg.msearchid Msg.msearch Msg.mrangeget
   EndToEnd.to_wire Wire.marshal_gen
   ScanMsg.miter_all ScanMsg.mscan_from ScanMsg.mscan_from_to Scan.stop_at Scan.never_stop
-  StatMsg.minit_levels StatMsg.mstat StatMsg.mrender.
+  StatMsg.minit_levels StatMsg.mstat StatMsg.mrender
+  GetIntMsg.mgeti GetInt.z_be8.
